@@ -466,25 +466,50 @@ def rarray(names_or_exprs, shape=None):
 # ---------------------------------------------------------------------------
 # T: trace domain (uninterpreted operation DAG)
 # ---------------------------------------------------------------------------
-class Node(tuple):
-    """Hash-consed DAG node: ('leaf', name) | ('const', value) | (op, *children)."""
-    __slots__ = ()
+class Node:
+    """Hash-consed DAG node: ('leaf', name) | ('const', value) | (op, *children).
+    Children are Nodes (compared by identity); the hash is cached, so building and
+    comparing deep DAGs is O(1) per node."""
+    __slots__ = ("items", "_h", "__weakref__")
     _table = {}
 
     def __new__(cls, *items):
-        key = items
+        key = tuple(id(x) if isinstance(x, Node) else ("v", x) for x in items)
         n = cls._table.get(key)
         if n is None:
-            n = tuple.__new__(cls, items)
+            n = object.__new__(cls)
+            n.items = items
+            n._h = hash(key)
             cls._table[key] = n
         return n
 
+    def __hash__(self):
+        return self._h
+
+    def __eq__(self, other):
+        return self is other
+
+    def __getitem__(self, i):
+        return self.items[i]
+
+    def __len__(self):
+        return len(self.items)
+
+    def __iter__(self):
+        return iter(self.items)
+
+    def show(self, depth=3):
+        if self.items[0] == "leaf":
+            return str(self.items[1])
+        if self.items[0] == "const":
+            return repr(self.items[1])
+        if depth <= 0:
+            return "%s(...)" % self.items[0]
+        return "%s(%s)" % (self.items[0], ", ".join(x.show(depth - 1) if isinstance(x, Node) else repr(x) for x in self.items[1:7])
+                           + (", ..." if len(self.items) > 7 else ""))
+
     def __repr__(self):
-        if self[0] == "leaf":
-            return str(self[1])
-        if self[0] == "const":
-            return repr(self[1])
-        return "%s(%s)" % (self[0], ", ".join(map(repr, self[1:])))
+        return self.show(3)
 
 
 def t_const(v):
@@ -511,9 +536,10 @@ def _is_c(n, v=None):
 
 class TSym(Sym):
     """Trace-domain scalar.  Rewrites applied (each exact in IEEE-754 for finite
-    operands, up to the sign of zero):  x+0 -> x, 0+x -> x, x-0 -> x, x*1 -> x,
-    1*x -> x, x/1 -> x, 0*x -> 0, x*0 -> 0 (finite x), -(0) -> 0, and constant
-    folding of two constants with the float operation itself."""
+    operands, up to the sign of zero):  x+0 -> x, 0+x -> x, x-0 -> x, 0-x -> -x, x*1 -> x,
+    1*x -> x, x/1 -> x, 0*x -> 0, x*0 -> 0 (finite x), -(0) -> 0, -(-x) -> x,
+    x-x -> 0, x+(-x) -> 0, and constant folding of two constants with the float
+    operation itself."""
     __slots__ = ()
     const = staticmethod(t_const)
 
@@ -528,8 +554,15 @@ class TSym(Sym):
         if name == "add":
             if _is_c(a[0], 0.0): return a[1]
             if _is_c(a[1], 0.0): return a[0]
+            # x + (-x) = 0 exactly for finite x
+            if a[0][0] == "neg" and a[0][1] is a[1]: return T_ZERO
+            if a[1][0] == "neg" and a[1][1] is a[0]: return T_ZERO
         elif name == "sub":
             if _is_c(a[1], 0.0): return a[0]
+            if a[0] is a[1]: return T_ZERO
+            if _is_c(a[0], 0.0): return Node("neg", a[1])
+        elif name == "neg":
+            if a[0][0] == "neg": return a[0][1]
         elif name == "mul":
             if _is_c(a[0], 1.0): return a[1]
             if _is_c(a[1], 1.0): return a[0]
